@@ -216,7 +216,7 @@ DepFrom(x) == IF x.isDeprecated.t = "b" /\ x.isDeprecated.v
               ELSE NoDep
 DescFrom(o) == IF o.t = "n" THEN "" ELSE o.v
 IVFrom(iv) == [name |-> SV(iv.name), desc |-> DescFrom(iv.description), type |-> ChainRef(iv.type),
-               def |-> IF iv.defaultValue.t = "n" THEN NoVal ELSE iv.defaultValue.v, dep |-> DepFrom(iv)]
+               def |-> IF iv.defaultValue.t = "n" THEN NoVal ELSE iv.defaultValue.v, dep |-> DepFrom(iv), tags |-> <<>>]
 FieldFrom(f) == [name |-> SV(f.name), desc |-> DescFrom(f.description), type |-> ChainRef(f.type),
                  args |-> MapSeq(LV(f.args), LAMBDA x : IVFrom(x)), dep |-> DepFrom(f), tags |-> <<>>]
 TypeFrom(ft) ==
@@ -225,9 +225,9 @@ TypeFrom(ft) ==
    ifaces |-> MapSeq(LV(ft.interfaces), LAMBDA r : SV(r[Len(r)].name)),
    \* possibleTypes of an interface are derived data; only a union's members are part of its definition
    members |-> IF SV(ft.kind) = "UNION" THEN MapSeq(LV(ft.possibleTypes), LAMBDA r : SV(r[Len(r)].name)) ELSE <<>>,
-   values |-> MapSeq(LV(ft.enumValues), LAMBDA e : [name |-> SV(e.name), desc |-> DescFrom(e.description), dep |-> DepFrom(e)]),
+   values |-> MapSeq(LV(ft.enumValues), LAMBDA e : [name |-> SV(e.name), desc |-> DescFrom(e.description), dep |-> DepFrom(e), tags |-> <<>>]),
    inputs |-> MapSeq(LV(ft.inputFields), LAMBDA x : IVFrom(x)),
-   url |-> IF ft.specifiedByURL.t = "n" THEN "" ELSE ft.specifiedByURL.v]
+   url |-> IF ft.specifiedByURL.t = "n" THEN "" ELSE ft.specifiedByURL.v, tags |-> <<>>]
 FromIntrospection(I) ==
   [desc |-> DescFrom(I.description), sd |-> TRUE, query |-> SV(I.queryType),
    mutation |-> IF I.mutationType.t = "n" THEN "" ELSE I.mutationType.v,
